@@ -33,6 +33,11 @@ class EarlyStop(Exception):
     pass
 
 
+class SolveAborted(Exception):
+    """the simulated user interrupts the solve at an arbitrary callback (Ctrl-C in a notebook, a wall-clock limit in a
+    batch script): the exception propagates out of scipy and PRISM.solve, leaving the object mid-iteration"""
+
+
 class SolveRecord(object):
     def __init__(self, index):
         self.index = index
@@ -55,6 +60,7 @@ class SimRoot(object):
         self.stream_key = stream_key
         self.calls = 0               # number of times root() was invoked (C16: never on a partial system)
         self.force_index = None      # C16: the reference solve of step k uses the fault stream of the swept solve it mirrors
+        self.abort_next = None       # one-shot: abort the next solve after this many callbacks (SolveAborted propagates)
 
     # scipy signature
     def __call__(self, fun, x0, args=(), method='hybr', jac=None, tol=None, callback=None, options=None):
@@ -71,11 +77,17 @@ class SimRoot(object):
         use_buf = bool(faults.get('buffer_reuse'))
         early = faults.get('early_stop')
         on_eval = self.on_eval
+        abort_at, self.abort_next = self.abort_next, None
 
         def wrapped(x):
             rec.ncalls += 1
             if ctx is not None:
                 ctx.tick()
+            if abort_at is not None and rec.ncalls > abort_at:
+                rec.faults.append('solve_aborted')
+                if ctx is not None:
+                    ctx.fault('solve_aborted')
+                raise SolveAborted('aborted after %d callbacks' % abort_at)
             if rec.ncalls > budget:
                 raise BudgetExceeded()
             if early is not None and rec.ncalls > early:
@@ -115,6 +127,8 @@ class SimRoot(object):
                 delta = scale * rs.standard_normal(np.shape(res.x))
                 try:
                     wrapped(np.asarray(res.x, dtype=float) + delta)
+                except SolveAborted:
+                    raise
                 except (BudgetExceeded, EarlyStop):
                     break
                 except Exception:
@@ -173,7 +187,7 @@ class SimRoot(object):
             if probe_every and it % probe_every == probe_every - 1:
                 try:
                     fun(x + alpha * 3.0 * y + 1e-3 * rs.standard_normal(x.shape))   # trial step, rejected
-                except (BudgetExceeded, EarlyStop):
+                except (BudgetExceeded, EarlyStop, SolveAborted):
                     raise
                 except Exception:
                     pass
@@ -195,7 +209,7 @@ class SimRoot(object):
         for _ in range(extra_after):
             try:
                 fun(best[1] + 1e-2 * rs.standard_normal(x.shape))
-            except (BudgetExceeded, EarlyStop):
+            except (BudgetExceeded, EarlyStop, SolveAborted):
                 raise
             except Exception:
                 pass
